@@ -304,6 +304,12 @@ func (l *Literal) UUID() uuid.UUID {
 	buffer.Reset()
 	defer bufPool.Put(buffer)
 
+	// The type is part of the identity of a literal: "0"^^type:int64 and
+	// "0"^^type:float64, or "abc"^^type:text and the blob [97 98 99], carry the
+	// same bytes but are different values.
+	buffer.WriteString(l.t.String())
+	buffer.WriteByte(0)
+
 	switch v := l.v.(type) {
 	case bool:
 		if v {
@@ -312,7 +318,7 @@ func (l *Literal) UUID() uuid.UUID {
 			buffer.WriteString("false")
 		}
 	case int64:
-		b := make([]byte, 8)
+		b := make([]byte, binary.MaxVarintLen64)
 		binary.PutVarint(b, v)
 		buffer.Write(b)
 	case float64:
